@@ -963,7 +963,7 @@ def report(ctx, runner, failures, limit=8):
 
 
 EXTRA_AUDIT = ["GojaModel.C17.Refine", "GojaModel.C17.Overlap", "GojaModel.C17.Sort", "GojaModel.C17.Float32", "GojaModel.C17.Bytes"]
-EXTRA_AUDIT_MIN = 110
+EXTRA_AUDIT_MIN = 120
 
 
 def audit_extra(ctx):
@@ -1004,7 +1004,7 @@ def main(ctx):
         # the axiom audit (and leanchecker in the thorough tier) only reads the built .olean files: it runs
         # concurrently with the correspondence and is joined before the verdict
         ta = [threading.Thread(target=ctx.audit, args=("GojaModel.C17.Props",), kwargs={"expect_min": PROPS_MIN}),
-              threading.Thread(target=ctx.audit, args=("GojaModel.C17.Tie",), kwargs={"expect_min": 16})]
+              threading.Thread(target=ctx.audit, args=("GojaModel.C17.Tie",), kwargs={"expect_min": 18})]
         ta.append(threading.Thread(target=audit_extra, args=(ctx,)))
         if not quick:
             ta.append(threading.Thread(target=ctx.leanchecker, args=("GojaModel.C17.Props",)))
